@@ -41,7 +41,10 @@ GRID = [0, 1, 2, 3, 4]
 KINDS = ["move_on", "timeout", "manual", "reschedule", "never"]
 
 
-def program(depth: int, kinds: list, shield: bool, external: bool, grid: list = ()):
+def program(depth: int, kinds: list, shield: bool, external: bool, grid: list = (), body: int = 0):
+    """body > 0: the innermost body is `body` solver-chosen statements from
+    {sleep(0), sleep(1), cancel_shielded_coro_yield(), ignore_cancellation(sleep(1)), scopes[j].cancel() for each open scope j}
+    instead of the fixed s1 / [shield s2] / s3 pattern (synchronous explicit cancels and shielded checkpoints)."""
     g = list(grid) or GRID
 
     def scenario(S):
@@ -50,9 +53,11 @@ def program(depth: int, kinds: list, shield: bool, external: bool, grid: list = 
             kind = kinds[i]
             d = S.pick(g, f"d{i}") if kind != "never" else None
             specs.append((kind, d))
-        s1 = S.pick(g, "s1")
-        s2 = S.pick(g[1:], "s2") if shield else None
-        s3 = S.pick(g, "s3")
+        s1 = S.pick(g, "s1") if not body else 0
+        s2 = (S.pick(g[1:], "s2") if shield else None) if not body else None
+        s3 = S.pick(g, "s3") if not body else 0
+        alphabet = ["sleep0", "sleep1", "shyield", "shsleep"] + [f"cancel{j}" for j in range(depth)]
+        stmts = [S.pick(alphabet, f"st{q}") for q in range(body)]
         x = S.pick([None] + g, "x") if external else None
         with loop_context() as loop:
             loop.busy_tick = 0.125  # a cancelled scope re-delivers its cancellation with call_soon on every iteration while a
@@ -91,6 +96,18 @@ def program(depth: int, kinds: list, shield: bool, external: bool, grid: list = 
                         if i + 1 < depth:
                             await level(i + 1)
                             await nap(f"after{i + 1}", 1, i + 1)
+                        elif body:
+                            for q, stx in enumerate(stmts):
+                                if stx == "sleep0":
+                                    await nap(f"b{q}", 0, depth)
+                                elif stx == "sleep1":
+                                    await nap(f"b{q}", 1, depth)
+                                elif stx == "shyield":
+                                    await be.cancel_shielded_coro_yield()
+                                elif stx == "shsleep":
+                                    await be.ignore_cancellation(nap(f"b{q}", 1, depth, shielded=True))
+                                else:
+                                    scopes[int(stx[6:])].cancel()
                         else:
                             await nap("s1", s1, depth)
                             if shield:
@@ -147,7 +164,7 @@ def program(depth: int, kinds: list, shield: bool, external: bool, grid: list = 
                 if shielded:
                     if e is None and task.done() and not problems:
                         problems.append(f"I6: shielded {label} did not run to completion")
-                    elif e is not None and label == "s2" and e - b < s2:
+                    elif e is not None and label == "s2" and s2 is not None and e - b < s2:
                         problems.append(f"I6: shielded {label} lasted {e - b} instead of {s2}")
                     continue
                 if e is None:
@@ -227,4 +244,8 @@ def shards(tier: str):
         d3 = list(itertools.product(["move_on", "timeout", "manual", "never"], repeat=3))
     for ks in d3:
         add(f"d3/{'-'.join(ks)}/sh/noext", dict(depth=3, kinds=list(ks), shield=True, external=False, grid=[0, 1, 2] if quick else small), cost=3**7)
+    # statement-level programs: synchronous scope.cancel() calls and shielded checkpoints in solver-chosen order
+    for ks in (["never"], ["never", "never"], ["never", "never", "never"], ["move_on", "never"], ["never", "timeout"]):
+        nb = 3 if (quick or len(ks) == 3) else 4
+        add(f"stmts/{'-'.join(ks)}/b{nb}", dict(depth=len(ks), kinds=ks, shield=False, external=False, grid=[1, 3], body=nb), cost=(4 + len(ks)) ** nb)
     return out
